@@ -279,6 +279,9 @@ GRAPHS: List[Tuple[str, int, List[Tuple[int, int]]]] = [
     ("square", 4, [(0, 1), (1, 2), (2, 3), (3, 0)]),
     ("two components", 4, [(0, 1), (2, 3)]),
     ("parallel edges", 2, [(0, 1), (0, 1)]),
+    # fewer edges than vertices and still cyclic (edge-count shortcuts are wrong on disconnected graphs)
+    ("triangle+isolated", 4, [(0, 1), (1, 2), (0, 2)]),
+    ("parallel edges+isolated", 3, [(0, 1), (0, 1)]),
 ]
 
 
@@ -507,94 +510,219 @@ def native_division(ops: List[Any]) -> bool:
     return all(sizes[i] is None or sizes[i] == cnt[find(i)] for i in range(n))
 
 
-def projection(inst: Instance, user_ids: List[int], budget_s: float = 4.0) -> Optional[Set[Tuple[Any, ...]]]:
-    """set of assignments of the caller's variables that extend to a satisfying assignment of all variables;
-    None when the enumeration budget is exceeded"""
-    em_den = EM.ExprWorld.denote
-    doms = inst.domains()
-    cons = inst.constraints()
-    # variables of each constraint
-    def vars_of(t: Any, acc: Set[int]) -> None:
-        if isinstance(t, Obj):
-            op = t.attrs.get("op")
-            if isinstance(op, Tag) and op.name.endswith("VAR"):
-                acc.add(t.attrs["id"])
-            for o in t.attrs.get("operands", []):
-                vars_of(o, acc)
+class K3:
+    """Three-valued / interval evaluation of posted constraint trees under a partial assignment:
+    booleans are True / False / None (unknown); integers are closed intervals (lo, hi).  A constraint that is already
+    True needs none of its remaining variables; one that is already False prunes the search."""
 
-    cvars = []
-    for c in cons:
-        acc: Set[int] = set()
-        vars_of(c, acc)
-        cvars.append(acc)
-    aux_ids = [i for i in doms if i not in user_ids]
-    # static ordering: next the variable that completes the most constraints (ties: smaller domain)
-    ordered: List[int] = []
-    have = set(user_ids)
-    rest_v = set(aux_ids)
-    while rest_v:
-        def gain(v: int) -> Tuple[int, int, int]:
-            done = sum(1 for vs in cvars if v in vs and vs <= have | {v})
-            near = sum(1 for vs in cvars if v in vs and len(vs - have) <= 2)
-            return (done, near, -len(doms[v]))
-        best = max(sorted(rest_v), key=gain)
-        ordered.append(best)
-        have.add(best)
-        rest_v.discard(best)
-    aux_ids = ordered
-    t0 = time.time()
+    def __init__(self, doms: Dict[int, List[Any]]):
+        self.doms = doms
 
-    class Den:
-        def denote(self, v: Any, val: Dict[Any, Any]) -> Any:
-            if isinstance(v, Obj) and isinstance(v.attrs.get("op"), Tag):
-                nm = v.attrs["op"].name
-                if nm.endswith("VAR"):
-                    return val[v.attrs["id"]]
-                if nm.endswith("GRAPH_ACTIVE_VERTICES_CONNECTED"):
-                    ops = [self.denote(o, val) for o in v.attrs["operands"]]
-                    return native_connected(ops)
-                if nm.endswith("GRAPH_DIVISION"):
-                    ops = [None if o is None else self.denote(o, val) for o in v.attrs["operands"]]
-                    return native_division(ops)
-            return em_den(self, v, val)  # type: ignore[arg-type]
+    def ev(self, v: Any, val: Dict[int, Any]) -> Any:
+        if isinstance(v, bool):
+            return v
+        if isinstance(v, int):
+            return (v, v)
+        if v is None:
+            return None
+        if not (isinstance(v, Obj) and isinstance(v.attrs.get("op"), Tag)):
+            raise Undecided(f"cannot evaluate {v!r}")
+        nm = v.attrs["op"].name.split(".")[-1]
+        ops = v.attrs.get("operands", [])
+        if nm == "VAR":
+            i = v.attrs["id"]
+            if i in val:
+                x = val[i]
+                return x if isinstance(x, bool) else (x, x)
+            d = self.doms[i]
+            return None if isinstance(d[0], bool) else (d[0], d[-1])
+        if nm in ("BOOL_CONSTANT", "INT_CONSTANT"):
+            return self.ev(ops[0], val)
+        if nm == "NOT":
+            x = self.ev(ops[0], val)
+            return None if x is None else (not x)
+        if nm in ("AND", "OR"):
+            absorbing = nm == "OR"
+            unk = False
+            for o in ops:
+                x = self.ev(o, val)
+                if x is None:
+                    unk = True
+                elif x is absorbing:
+                    return absorbing
+            return None if unk else (not absorbing)
+        if nm == "IMP":
+            a_, b_ = self.ev(ops[0], val), self.ev(ops[1], val)
+            if a_ is False or b_ is True:
+                return True
+            if a_ is True and b_ is False:
+                return False
+            return None
+        if nm in ("IFF", "XOR"):
+            a_, b_ = self.ev(ops[0], val), self.ev(ops[1], val)
+            if a_ is None or b_ is None:
+                return None
+            return (a_ == b_) if nm == "IFF" else (a_ != b_)
+        if nm in ("EQ", "NE", "LE", "LT", "GE", "GT"):
+            (al, ah), (bl, bh) = self.ev(ops[0], val), self.ev(ops[1], val)
+            if nm in ("GE", "GT"):
+                (al, ah), (bl, bh) = (bl, bh), (al, ah)
+                nm = "LE" if nm == "GE" else "LT"
+            if nm == "LE":
+                return True if ah <= bl else (False if al > bh else None)
+            if nm == "LT":
+                return True if ah < bl else (False if al >= bh else None)
+            if al == ah == bl == bh:
+                return nm == "EQ"
+            if ah < bl or bh < al:
+                return nm == "NE"
+            return None
+        if nm in ("ADD", "SUB"):
+            lo, hi = self.ev(ops[0], val)
+            for o in ops[1:]:
+                l2, h2 = self.ev(o, val)
+                lo, hi = (lo + l2, hi + h2) if nm == "ADD" else (lo - h2, hi - l2)
+            return (lo, hi)
+        if nm == "NEG":
+            lo, hi = self.ev(ops[0], val)
+            return (-hi, -lo)
+        if nm == "IF":
+            c = self.ev(ops[0], val)
+            if c is True:
+                return self.ev(ops[1], val)
+            if c is False:
+                return self.ev(ops[2], val)
+            (al, ah), (bl, bh) = self.ev(ops[1], val), self.ev(ops[2], val)
+            return (min(al, bl), max(ah, bh))
+        if nm == "ALLDIFF":
+            xs = [self.ev(o, val) for o in ops]
+            known = [x[0] for x in xs if x[0] == x[1]]
+            if len(set(known)) < len(known):
+                return False
+            return True if len(known) == len(xs) else None
+        if nm in ("GRAPH_ACTIVE_VERTICES_CONNECTED", "GRAPH_DIVISION"):
+            xs = [None if o is None else self.ev(o, val) for o in ops]
+            flat = []
+            for o, x in zip(ops, xs):
+                if o is None:
+                    flat.append(None)
+                elif x is None or (isinstance(x, tuple) and x[0] != x[1]):
+                    return None
+                else:
+                    flat.append(x[0] if isinstance(x, tuple) else x)
+            return native_connected(flat) if nm.endswith("CONNECTED") else native_division(flat)
+        raise Undecided(f"no three-valued meaning for {nm}")
 
-    den = Den()
 
-    def ok(assign: Dict[int, Any], upto: Set[int]) -> bool:
-        for c, vs in zip(cons, cvars):
-            if vs <= upto:
-                if den.denote(c, assign) is not True:
-                    return False
+def _vars_of(t: Any, acc: Set[int]) -> None:
+    if isinstance(t, Obj):
+        op = t.attrs.get("op")
+        if isinstance(op, Tag) and op.name.endswith("VAR"):
+            acc.add(t.attrs["id"])
+        for o in t.attrs.get("operands", []):
+            _vars_of(o, acc)
+
+
+class Extender:
+    """decides whether an assignment of the caller's variables extends to all posted constraints (backtracking over the
+    auxiliary variables that still occur in an undetermined constraint; three-valued pruning)"""
+
+    def __init__(self, inst: Instance, budget_s: float):
+        self.doms = inst.domains()
+        self.cons = inst.constraints()
+        self.cvars: List[Set[int]] = []
+        for c in self.cons:
+            acc: Set[int] = set()
+            _vars_of(c, acc)
+            self.cvars.append(acc)
+        self.k3 = K3(self.doms)
+        self.t0 = time.time()
+        self.budget = budget_s
+
+    def sat(self, fixed: Dict[int, Any]) -> bool:
+        assign = dict(fixed)
+        pending = []
+        for idx, c in enumerate(self.cons):
+            r = self.k3.ev(c, assign)
+            if r is False:
+                return False
+            if r is None:
+                pending.append(idx)
+        return self._extend(assign, pending)
+
+    def _extend(self, assign: Dict[int, Any], pending: List[int]) -> bool:
+        """all undetermined constraints satisfiable?  Constraints that share no free variable are solved separately."""
+        if not pending:
+            return True
+        if len(pending) == 1:
+            return self._branch(assign, pending)
+        # connected components of the pending constraints over their free variables
+        owner: Dict[int, int] = {}
+        parent = list(range(len(pending)))
+
+        def find(x: int) -> int:
+            while parent[x] != x:
+                parent[x] = parent[parent[x]]
+                x = parent[x]
+            return x
+
+        for k, idx in enumerate(pending):
+            for v in self.cvars[idx]:
+                if v in assign:
+                    continue
+                if v in owner:
+                    parent[find(k)] = find(owner[v])
+                else:
+                    owner[v] = k
+        comps: Dict[int, List[int]] = {}
+        for k, idx in enumerate(pending):
+            comps.setdefault(find(k), []).append(idx)
+        for comp in sorted(comps.values(), key=len):
+            if not self._branch(assign, comp):
+                return False
         return True
 
-    # order aux variables so that constraints become checkable early
-    def extend(assign: Dict[int, Any], assigned: Set[int], rest: List[int]) -> bool:
-        if time.time() - t0 > budget_s:
+    def _branch(self, assign: Dict[int, Any], pending: List[int]) -> bool:
+        if time.time() - self.t0 > self.budget:
             raise TimeoutError
-        if not rest:
-            return True
-        v = rest[0]
-        for val in doms[v]:
+        # branch on the unassigned variable that occurs in the most undetermined constraints (ties: smaller domain)
+        count: Dict[int, int] = {}
+        for idx in pending:
+            for v in self.cvars[idx]:
+                if v not in assign:
+                    count[v] = count.get(v, 0) + 1
+        if not count:
+            raise Undecided("undetermined constraint without free variables")
+        v = max(sorted(count), key=lambda x: (count[x], -len(self.doms[x])))
+        for val in self.doms[v]:
             assign[v] = val
-            now = assigned | {v}
+            nxt = []
             good = True
-            for c, vs in zip(cons, cvars):
-                if v in vs and vs <= now and den.denote(c, assign) is not True:
-                    good = False
-                    break
-            if good and extend(assign, now, rest[1:]):
+            for idx in pending:
+                if v in self.cvars[idx]:
+                    r = self.k3.ev(self.cons[idx], assign)
+                    if r is False:
+                        good = False
+                        break
+                    if r is None:
+                        nxt.append(idx)
+                else:
+                    nxt.append(idx)
+            if good and self._extend(assign, nxt):
+                assign.pop(v, None)
                 return True
         assign.pop(v, None)
         return False
 
+
+def projection(inst: Instance, user_ids: List[int], budget_s: float = 4.0) -> Optional[Set[Tuple[Any, ...]]]:
+    """set of assignments of the caller's variables that extend to a satisfying assignment of all variables;
+    None when the enumeration budget is exceeded"""
+    ext = Extender(inst, budget_s)
     out: Set[Tuple[Any, ...]] = set()
     try:
-        for vals in itertools.product(*[doms[i] for i in user_ids]):
-            assign = dict(zip(user_ids, vals))
-            base = set(user_ids)
-            if not ok(assign, base):
-                continue
-            if extend(assign, base, aux_ids):
+        for vals in itertools.product(*[ext.doms[i] for i in user_ids]):
+            if ext.sat(dict(zip(user_ids, vals))):
                 out.add(tuple(vals))
     except TimeoutError:
         return None
